@@ -150,6 +150,15 @@ pub fn gen_workload(sub: u64) -> Workload {
             extra_flags.push(f.to_string());
         }
     }
+    if !corpus.links.is_empty() {
+        // the links matter only when followed; a size limit then has to look at their targets
+        if rng.chance(1, 2) {
+            extra_flags.push("-L".into());
+        }
+        if rng.chance(1, 2) {
+            extra_flags.push(["--max-filesize=2K", "--max-filesize=300"][rng.below(2)].into());
+        }
+    }
     extra_flags.dedup();
     if mode == "json" || mode == "files" {
         extra_flags.retain(|f| f != "--column" && f != "--trim");
